@@ -91,8 +91,8 @@ static view_t sp_erase_key(view_t o, int c, int k) { view_t r; r.n = 0; for (int
   for (int i = 0; i < N; ++i) if ((unsigned long)i < o.n && !equiv(c, o.a[i], k)) { r.a[r.n] = o.a[i]; ++r.n; } return r; }
 static view_t sp_erase_idx(view_t o, unsigned long f, unsigned long l) { view_t r; r.n = o.n - (l - f);
   for (int i = 0; i <= N; ++i) { unsigned long j = (unsigned long)i; r.a[i] = j < f ? o.a[i] : (j < r.n && j + (l - f) <= N ? o.a[j + (l - f)] : 0); } return r; }
-static view_t sp_erase_mult3(view_t o) { view_t r; r.n = 0; for (int i = 0; i <= N; ++i) r.a[i] = 0;
-  for (int i = 0; i < N; ++i) if ((unsigned long)i < o.n && o.a[i] % 3 != 0) { r.a[r.n] = o.a[i]; ++r.n; } return r; }
+static view_t sp_erase_odd(view_t o) { view_t r; r.n = 0; for (int i = 0; i <= N; ++i) r.a[i] = 0;
+  for (int i = 0; i < N; ++i) if ((unsigned long)i < o.n && (o.a[i] & 1) == 0) { r.a[r.n] = o.a[i]; ++r.n; } return r; }
 /* operator< of std::set: lexicographical_compare with operator< of the elements (NOT the set's comparator) */
 static int sp_lexcmp(view_t x, view_t y) { for (int i = 0; i < N; ++i) { if ((unsigned long)i >= x.n || (unsigned long)i >= y.n) break; if (x.a[i] < y.a[i]) return -1; if (y.a[i] < x.a[i]) return 1; }
   return x.n < y.n ? -1 : (x.n > y.n ? 1 : 0); }
@@ -104,56 +104,39 @@ view_t vf_snap; unsigned char *vf_snap_sz; int *vf_snap_el;
     __CPROVER_assert(same, "the set is unmodified (size and every slot) when the assertion handler runs"); } } while (0)
 #include "vf_handler.h"
 
-/* an arbitrary well-formed set s of instantiation P (comparator C) and its view o */
-#define ARB(P, C, s, o) VF_INPUT(P##_t, s); view_t o; VIEW(o, P##_SZ, P##_EL, s); __CPROVER_assume(v_wf(o, C))
-#define NOW(P, s, w) view_t w; VIEW(w, P##_SZ, P##_EL, s)
-/* size and every slot (also those behind size) are unchanged */
-#define SAME_BYTES(P, s, s0) (P##_SZ(s) == P##_SZ(s0) && P##_EL(s, 0) == P##_EL(s0, 0) && P##_EL(s, 1) == P##_EL(s0, 1) && P##_EL(s, 2) == P##_EL(s0, 2) && P##_EL(s, N - 1) == P##_EL(s0, N - 1))
-_Static_assert(N == 4, "SAME_BYTES enumerates the slots of capacity 4");
-
-/* case-split cells (split=SW:.. / split=SC:..): the engine defines the cell value; all cells together cover the whole input domain */
-#ifdef SW
-#define CELL_W(x) (x) = SW /* assignment, not assumption: lets symbolic execution propagate the constant */
+/* ---- case-split cells.  A group with split=SW:lo:hi (SN, SC, SX likewise) is run once per value; the cells of a group together cover its whole
+ * input domain (every cell is a full proof for its slice, nothing is sampled).  Cells fix a harness input by ASSIGNMENT, not by assumption, so
+ * that symbolic execution propagates the constant; several small formulas are far cheaper than their conjunction. ---- */
+#ifdef SW /* which operation / overload of the template */
+#define ON(i) (SW == (i))
+#define CELL_W(x) (x) = SW
 #else
+#define ON(i) 1
 #define CELL_W(x) ((void)0)
 #endif
-#ifdef SC
+#ifdef SN /* size of the arbitrary set */
+#define CELL_N(P, s) P##_SZ(s) = SN
+#else
+#define CELL_N(P, s) ((void)0)
+#endif
+#ifdef SC /* length of the source range / container */
 #define CELL_C(x) (x) = SC
 #else
 #define CELL_C(x) ((void)0)
 #endif
-/* insert(first,last): cells over (range length c, set size n) with n + c <= N; cell 0 is c == 0 with any n */
-#ifdef SX
+#ifdef SX /* insert(first,last): pairs (range length c, set size n) with n + c <= N; cell 0 is c == 0 with any n */
 #if SX == 0
 #define SX_C 0
 #define SX_N -1
-#elif SX == 1
+#elif SX <= 4
 #define SX_C 1
-#define SX_N 0
-#elif SX == 2
-#define SX_C 1
-#define SX_N 1
-#elif SX == 3
-#define SX_C 1
-#define SX_N 2
-#elif SX == 4
-#define SX_C 1
-#define SX_N 3
-#elif SX == 5
+#define SX_N (SX - 1)
+#elif SX <= 7
 #define SX_C 2
-#define SX_N 0
-#elif SX == 6
-#define SX_C 2
-#define SX_N 1
-#elif SX == 7
-#define SX_C 2
-#define SX_N 2
-#elif SX == 8
+#define SX_N (SX - 5)
+#elif SX <= 9
 #define SX_C 3
-#define SX_N 0
-#elif SX == 9
-#define SX_C 3
-#define SX_N 1
+#define SX_N (SX - 8)
 #elif SX == 10
 #define SX_C 4
 #define SX_N 0
@@ -164,36 +147,48 @@ _Static_assert(N == 4, "SAME_BYTES enumerates the slots of capacity 4");
 #else
 #define CELL_X(P, s, c) ((void)0)
 #endif
+
+/* an arbitrary well-formed set s of instantiation P (comparator C) and its view o */
+#define ARB(P, C, s, o) VF_INPUT(P##_t, s); CELL_N(P, s); view_t o; VIEW(o, P##_SZ, P##_EL, s); __CPROVER_assume(v_wf(o, C))
+#define ARB2(P, C, s, o) VF_INPUT(P##_t, s); view_t o; VIEW(o, P##_SZ, P##_EL, s); __CPROVER_assume(v_wf(o, C))
+#define NOW(P, s, w) view_t w; VIEW(w, P##_SZ, P##_EL, s)
+/* size and every slot (also those behind size) are unchanged */
+#define SAME_BYTES(P, s, s0) (P##_SZ(s) == P##_SZ(s0) && P##_EL(s, 0) == P##_EL(s0, 0) && P##_EL(s, 1) == P##_EL(s0, 1) && P##_EL(s, 2) == P##_EL(s0, 2) && P##_EL(s, N - 1) == P##_EL(s0, N - 1))
+_Static_assert(N == 4, "SAME_BYTES enumerates the slots of capacity 4");
+
 /* =================================================================== templates ===================================== */
-/* lookups with a key of the key type: the answers of a linear scan under the same comparator; nothing is modified */
-#define H_LOOKUP(P, C, KNOWN) void h_##P##_lookup(void) { ARB(P, C, s, o); VF_INPUT(int, k); P##_t s0 = s; int *b = BASE(P, s); \
-  VF_ASSERT(P##_lower_bound(&s, &k) == b + v_lb(o, C, k) && P##_clower_bound(&s, &k) == b + v_lb(o, C, k), "lower_bound(k): first element not before k (linear scan)"); \
-  VF_ASSERT(P##_upper_bound(&s, &k) == b + v_ub(o, C, k) && P##_cupper_bound(&s, &k) == b + v_ub(o, C, k), "upper_bound(k): first element after k (linear scan)"); \
-  VF_ASSERT(SAME_BYTES(P, s, s0), "lookups do not modify the set"); \
-  KNOWN; \
-  VF_ASSERT(P##_find(&s, &k) == b + v_find(o, C, k) && P##_cfind(&s, &k) == b + v_find(o, C, k), "find(k): the element equivalent to k, end() if there is none"); \
-  VF_ASSERT(P##_contains(&s, &k) == v_member(o, C, k), "contains(k) == member(k)"); \
-  VF_ASSERT(P##_count(&s, &k) == (v_member(o, C, k) ? 1 : 0), "count(k) is 1 for a member, 0 otherwise"); \
+/* lookups with a key of the key type: the answers of a linear scan under the same comparator; nothing is modified.  Cells: one per function. */
+#define H_LOOKUP(P, C) void h_##P##_lookup(void) { ARB(P, C, s, o); VF_INPUT(int, k); P##_t s0 = s; int *b = BASE(P, s); \
+  if (ON(0)) VF_ASSERT(P##_lower_bound(&s, &k) == b + v_lb(o, C, k), "lower_bound(k): first element not before k (linear scan)"); \
+  if (ON(1)) VF_ASSERT(P##_clower_bound(&s, &k) == b + v_lb(o, C, k), "lower_bound(k) const: first element not before k (linear scan)"); \
+  if (ON(2)) VF_ASSERT(P##_upper_bound(&s, &k) == b + v_ub(o, C, k), "upper_bound(k): first element after k (linear scan)"); \
+  if (ON(3)) VF_ASSERT(P##_cupper_bound(&s, &k) == b + v_ub(o, C, k), "upper_bound(k) const: first element after k (linear scan)"); \
+  if (ON(4)) VF_ASSERT(P##_find(&s, &k) == b + v_find(o, C, k), "find(k): the element equivalent to k, end() if there is none"); \
+  if (ON(5)) VF_ASSERT(P##_cfind(&s, &k) == b + v_find(o, C, k), "find(k) const: the element equivalent to k, end() if there is none"); \
+  if (ON(6)) VF_ASSERT(P##_contains(&s, &k) == v_member(o, C, k), "contains(k) == member(k)"); \
+  if (ON(7)) VF_ASSERT(P##_count(&s, &k) == (v_member(o, C, k) ? 1 : 0), "count(k) is 1 for a member, 0 otherwise"); \
   VF_ASSERT(SAME_BYTES(P, s, s0), "lookups do not modify the set"); VF_REACH(); }
-
-#define H_EQUAL_RANGE(P, C) void h_##P##_equal_range(void) { ARB(P, C, s, o); VF_INPUT(int, k); P##_t s0 = s; int *b = BASE(P, s); int *lo, *hi; const int *clo, *chi; \
-  P##_equal_range(&s, &k, &lo, &hi); P##_cequal_range(&s, &k, &clo, &chi); \
-  VF_ASSERT(lo == b + v_lb(o, C, k) && hi == b + v_ub(o, C, k) && clo == lo && chi == hi, "equal_range(k) == (lower_bound(k), upper_bound(k)) of the linear scan"); \
-  VF_ASSERT(hi - lo == (v_member(o, C, k) ? 1 : 0), "equal_range(k) spans exactly the element equivalent to k"); \
+#define H_EQUAL_RANGE(P, C) void h_##P##_equal_range(void) { ARB(P, C, s, o); VF_INPUT(int, k); P##_t s0 = s; int *b = BASE(P, s); int *lo = 0, *hi = 0; const int *clo = 0, *chi = 0; \
+  if (ON(0)) { P##_equal_range(&s, &k, &lo, &hi); VF_ASSERT(lo == b + v_lb(o, C, k) && hi == b + v_ub(o, C, k), "equal_range(k) == (lower_bound(k), upper_bound(k)) of the linear scan"); \
+    VF_ASSERT(hi - lo == (v_member(o, C, k) ? 1 : 0), "equal_range(k) spans exactly the element equivalent to k"); } \
+  if (ON(1)) { P##_cequal_range(&s, &k, &clo, &chi); VF_ASSERT(clo == b + v_lb(o, C, k) && chi == b + v_ub(o, C, k), "equal_range(k) const == (lower_bound(k), upper_bound(k)) of the linear scan"); } \
   VF_ASSERT(SAME_BYTES(P, s, s0), "equal_range does not modify the set"); VF_REACH(); }
-
 /* heterogeneous lookup through a transparent comparator: key of type long, compared as less<void> does (int promoted to long) */
 #define H_LOOKUP_H(P, C, KNOWN) void h_##P##_lookup_h(void) { ARB(P, C, s, o); VF_INPUT(long, k); P##_t s0 = s; int *b = BASE(P, s); \
-  VF_ASSERT(P##_lower_bound_h(&s, &k) == b + v_lb(o, C, k) && P##_clower_bound_h(&s, &k) == b + v_lb(o, C, k), "lower_bound(K): first element not before k (linear scan)"); \
-  VF_ASSERT(P##_upper_bound_h(&s, &k) == b + v_ub(o, C, k) && P##_cupper_bound_h(&s, &k) == b + v_ub(o, C, k), "upper_bound(K): first element after k (linear scan)"); \
+  if (ON(0)) VF_ASSERT(P##_lower_bound_h(&s, &k) == b + v_lb(o, C, k), "lower_bound(K): first element not before k (linear scan)"); \
+  if (ON(1)) VF_ASSERT(P##_clower_bound_h(&s, &k) == b + v_lb(o, C, k), "lower_bound(K) const: first element not before k (linear scan)"); \
+  if (ON(2)) VF_ASSERT(P##_upper_bound_h(&s, &k) == b + v_ub(o, C, k), "upper_bound(K): first element after k (linear scan)"); \
+  if (ON(3)) VF_ASSERT(P##_cupper_bound_h(&s, &k) == b + v_ub(o, C, k), "upper_bound(K) const: first element after k (linear scan)"); \
+  VF_ASSERT(SAME_BYTES(P, s, s0), "heterogeneous lookups do not modify the set"); \
   KNOWN; \
-  VF_ASSERT(P##_find_h(&s, &k) == b + v_find(o, C, k) && P##_cfind_h(&s, &k) == b + v_find(o, C, k), "find(K): the element equivalent to k, end() if there is none"); \
-  VF_ASSERT(P##_contains_h(&s, &k) == v_member(o, C, k), "contains(K) == member(k)"); \
-  VF_ASSERT(P##_count_h(&s, &k) == (v_member(o, C, k) ? 1 : 0), "count(K) is 1 for a member, 0 otherwise"); \
-  VF_ASSERT(SAME_BYTES(P, s, s0), "heterogeneous lookups do not modify the set"); VF_REACH(); }
-#define H_EQUAL_RANGE_H(P, C) void h_##P##_equal_range_h(void) { ARB(P, C, s, o); VF_INPUT(long, k); int *b = BASE(P, s); int *lo, *hi; const int *clo, *chi; \
-  P##_equal_range_h(&s, &k, &lo, &hi); P##_cequal_range_h(&s, &k, &clo, &chi); \
-  VF_ASSERT(lo == b + v_lb(o, C, k) && hi == b + v_ub(o, C, k) && clo == lo && chi == hi, "equal_range(K) == (lower_bound, upper_bound) of the linear scan"); VF_REACH(); }
+  if (ON(4)) VF_ASSERT(P##_find_h(&s, &k) == b + v_find(o, C, k), "find(K): the element equivalent to k, end() if there is none"); \
+  if (ON(5)) VF_ASSERT(P##_cfind_h(&s, &k) == b + v_find(o, C, k), "find(K) const: the element equivalent to k, end() if there is none"); \
+  if (ON(6)) VF_ASSERT(P##_contains_h(&s, &k) == v_member(o, C, k), "contains(K) == member(k)"); \
+  if (ON(7)) VF_ASSERT(P##_count_h(&s, &k) == (v_member(o, C, k) ? 1 : 0), "count(K) is 1 for a member, 0 otherwise"); \
+  VF_REACH(); }
+#define H_EQUAL_RANGE_H(P, C) void h_##P##_equal_range_h(void) { ARB(P, C, s, o); VF_INPUT(long, k); int *b = BASE(P, s); int *lo = 0, *hi = 0; const int *clo = 0, *chi = 0; \
+  if (ON(0)) { P##_equal_range_h(&s, &k, &lo, &hi); VF_ASSERT(lo == b + v_lb(o, C, k) && hi == b + v_ub(o, C, k), "equal_range(K) == (lower_bound, upper_bound) of the linear scan"); } \
+  if (ON(1)) { P##_cequal_range_h(&s, &k, &clo, &chi); VF_ASSERT(clo == b + v_lb(o, C, k) && chi == b + v_ub(o, C, k), "equal_range(K) const == (lower_bound, upper_bound) of the linear scan"); } VF_REACH(); }
 
 /* observers and iteration: begin..end walks the elements in ascending comparator order */
 #define H_OBSERVE_CORE(P, C) ARB(P, C, s, o); VF_INPUT(int, x); VF_INPUT(int, y); int *b = BASE(P, s); \
@@ -205,39 +200,46 @@ _Static_assert(N == 4, "SAME_BYTES enumerates the slots of capacity 4");
 #define H_OBSERVE_SS(P, C) void h_##P##_observe(void) { H_OBSERVE_CORE(P, C); H_OBSERVE_COMP(P, C); H_OBSERVE_REV(P); VF_ASSERT(P##_full(&s) == (o.n == N), "full() iff n == N"); VF_REACH(); }
 #define H_OBSERVE_FS(P, C) void h_##P##_observe(void) { H_OBSERVE_CORE(P, C); H_OBSERVE_COMP(P, C); H_OBSERVE_REV(P); VF_REACH(); }
 #define H_OBSERVE_FSI(P, C) void h_##P##_observe(void) { H_OBSERVE_CORE(P, C); H_OBSERVE_COMP(P, C); VF_REACH(); }
+#define H_DEFAULT(P, C) void h_##P##_default(void) { VF_INPUT(P##_t, s); /* indeterminate storage */ P##_default(&s); VF_ASSERT(P##_SZ(s) == 0 && P##_size(&s) == 0 && P##_empty(&s) && P##_begin(&s) == P##_end(&s), "default construction: the empty set"); VF_REACH(); }
 
-/* insert / emplace of one key into a set that has room for it (or already holds it).  CALLS: which -> (inserted, it) */
+/* insert / emplace of one key into a set that has room for it (or already holds it); cells: one per overload.
+ * view' == reference insertion here; the laws of the reference insertion (member'(g) == member(g) || g ~ k for every g, size, sortedness) are group lemma_insert_* */
 #define INSERT_POST(P, C) NOW(P, s, w); view_t e = sp_insert(o, C, k); _Bool was = v_member(o, C, k); \
   VF_ASSERT(v_wf(w, C), "insert keeps the set sorted and unique"); \
-  VF_ASSERT(v_eq(w, e), "insert(k): unchanged when an equivalent key is present, otherwise k is added at its sorted position and nothing else moves (== reference insertion; membership and size laws of the reference: group lemma_insert)")
-#define H_INSERT_SS(P, C, KNOWN) void h_##P##_insert(void) { ARB(P, C, s, o); VF_INPUT(int, k); VF_INPUT(unsigned char, which); CELL_W(which); __CPROVER_assume(which <= 2); __CPROVER_assume(o.n < N || v_member(o, C, k)); \
-  int *it = 0; _Bool ins = which == 0 ? P##_insert(&s, &k, &it) : (which == 1 ? P##_insert_rv(&s, k, &it) : P##_emplace(&s, k, &it)); \
-  INSERT_POST(P, C); VF_ASSERT(ins == !was, "insert(k).second: true iff k was absent"); \
-  KNOWN; VF_ASSERT(it == BASE(P, s) + v_find(e, C, k), "insert(k).first: iterator to the element equivalent to k (the new one or the one that prevented the insertion)"); VF_REACH(); }
+  VF_ASSERT(v_eq(w, e), "insert(k): unchanged when an equivalent key is present, otherwise k is added at its sorted position and nothing else moves (== reference insertion)"); \
+  VF_ASSERT(ins == !was, "insert(k).second: true iff k was absent")
+#define INSERT_CALL_SS(P) int *it = 0; _Bool ins = which == 0 ? P##_insert(&s, &k, &it) : (which == 1 ? P##_insert_rv(&s, k, &it) : P##_emplace(&s, k, &it))
+#define H_INSERT_SS(P, C) void h_##P##_insert(void) { ARB(P, C, s, o); VF_INPUT(int, k); VF_INPUT(unsigned char, which); CELL_W(which); __CPROVER_assume(which <= 2); __CPROVER_assume(o.n < N || v_member(o, C, k)); \
+  INSERT_CALL_SS(P); INSERT_POST(P, C); VF_REACH(); }
+/* the iterator of the result (its own group: the check carries known findings whose probes re-run the group) */
+#define H_INSERT_ITER_SS(P, C, KNOWN) void h_##P##_insert_iter(void) { ARB(P, C, s, o); VF_INPUT(int, k); VF_INPUT(unsigned char, which); CELL_W(which); __CPROVER_assume(which <= 2); __CPROVER_assume(o.n < N || v_member(o, C, k)); \
+  INSERT_CALL_SS(P); (void)ins; view_t e = sp_insert(o, C, k); KNOWN; \
+  VF_ASSERT(it == BASE(P, s) + v_find(e, C, k), "insert(k).first: iterator to the element equivalent to k (the new one or the one that prevented the insertion)"); VF_REACH(); }
 #define H_INSERT_FS(P, C) void h_##P##_insert(void) { ARB(P, C, s, o); VF_INPUT(int, k); VF_INPUT(unsigned char, which); VF_INPUT(unsigned char, hint); CELL_W(which); __CPROVER_assume(which <= 5); __CPROVER_assume((o.n < N || v_member(o, C, k)) && hint <= o.n); \
   int *it = 0; _Bool ins = !v_member(o, C, k); const int *h = BASE(P, s) + hint; \
   switch (which) { case 0: ins = P##_insert(&s, &k, &it); break; case 1: ins = P##_insert_rv(&s, k, &it); break; case 2: ins = P##_emplace(&s, k, &it); break; \
     case 3: it = P##_insert_hint(&s, h, &k); break; case 4: it = P##_insert_hint_rv(&s, h, k); break; default: it = P##_emplace_hint(&s, h, k); break; } \
-  INSERT_POST(P, C); VF_ASSERT(ins == !was, "insert(k).second: true iff k was absent"); \
+  INSERT_POST(P, C); \
   VF_ASSERT(it == BASE(P, s) + v_find(e, C, k), "insert/emplace[_hint](k): iterator to the element equivalent to k (the new one or the one that prevented the insertion), whatever the hint"); VF_REACH(); }
 /* static_set, full set, new key: the insertion is refused (second == false) and nothing changes */
-#define H_INSERT_FULL_SS(P, C) void h_##P##_insert_full(void) { ARB(P, C, s, o); VF_INPUT(int, k); VF_INPUT(unsigned char, which); __CPROVER_assume(o.n == N && !v_member(o, C, k)); P##_t s0 = s; \
-  int *it = 0; _Bool ins = which == 0 ? P##_insert(&s, &k, &it) : (which == 1 ? P##_insert_rv(&s, k, &it) : P##_emplace(&s, k, &it)); \
+#define H_INSERT_FULL_SS(P, C) void h_##P##_insert_full(void) { VF_INPUT(P##_t, s); P##_SZ(s) = N; view_t o; VIEW(o, P##_SZ, P##_EL, s); __CPROVER_assume(v_wf(o, C)); VF_INPUT(int, k); VF_INPUT(unsigned char, which); CELL_W(which); __CPROVER_assume(which <= 2); __CPROVER_assume(!v_member(o, C, k)); P##_t s0 = s; \
+  INSERT_CALL_SS(P); (void)it; \
   VF_ASSERT(!ins, "insert of a new key into a full static_set reports failure"); VF_ASSERT(SAME_BYTES(P, s, s0), "insert of a new key into a full static_set changes nothing (size and every slot)"); VF_REACH(); }
 /* flat_set over static_vector, full set, new key: the container's contract check (!full()) fires before anything is modified */
-#define H_INSERT_FULL_FS(P, C) void h_##P##_insert_full(void) { ARB(P, C, s, o); VF_INPUT(int, k); VF_INPUT(unsigned char, which); __CPROVER_assume(o.n == N && !v_member(o, C, k)); \
+#define H_INSERT_FULL_FS(P, C) void h_##P##_insert_full(void) { VF_INPUT(P##_t, s); P##_SZ(s) = N; view_t o; VIEW(o, P##_SZ, P##_EL, s); __CPROVER_assume(v_wf(o, C)); VF_INPUT(int, k); VF_INPUT(unsigned char, which); CELL_W(which); __CPROVER_assume(which <= 5); __CPROVER_assume(!v_member(o, C, k)); \
   vf_expect_handler = 1; vf_snap = o; vf_snap_sz = &P##_SZ(s); vf_snap_el = BASE(P, s); int *it = 0; \
-  switch (which) { case 0: P##_insert(&s, &k, &it); break; case 1: P##_insert_rv(&s, k, &it); break; case 2: P##_emplace(&s, k, &it); break; default: it = P##_insert_hint(&s, BASE(P, s), &k); break; } \
+  switch (which) { case 0: P##_insert(&s, &k, &it); break; case 1: P##_insert_rv(&s, k, &it); break; case 2: P##_emplace(&s, k, &it); break; \
+    case 3: it = P##_insert_hint(&s, BASE(P, s), &k); break; case 4: it = P##_insert_hint_rv(&s, BASE(P, s), k); break; default: it = P##_emplace_hint(&s, BASE(P, s), k); break; } \
   VF_NORETURN_EXPECTED(); }
 
-/* insert(first,last) and construction from a range: a fold of single insertions; the room suffices for the whole range */
+/* insert(first,last) and construction from a range: a fold of single insertions; the room suffices for the whole range.
+ * view' == fold of reference insertions here; the membership law of the fold is group lemma_insert_range_* */
 #define RANGE_SPEC(C) view_t e = o; for (int i = 0; i < N; ++i) if (i < c) e = sp_insert(e, C, src_in[i])
-#define RANGE_POST(C, what) VF_ASSERT(v_wf(w, C), what ": result is sorted and unique"); VF_ASSERT(v_eq(w, e), what ": the fold of single (reference) insertions in range order; membership law of the fold: group lemma_insert_range")
+#define RANGE_POST(C, what) VF_ASSERT(v_wf(w, C), what ": result is sorted and unique"); VF_ASSERT(v_eq(w, e), what ": the fold of single (reference) insertions in range order")
 #define H_INSERT_RANGE(P, C) void h_##P##_insert_range(void) { VF_INPUT(P##_t, s); VF_INPUT(unsigned char, c); CELL_X(P, s, c); view_t o; VIEW(o, P##_SZ, P##_EL, s); __CPROVER_assume(v_wf(o, C)); __CPROVER_assume(c <= N && o.n + c <= N); VF_BUF(int, src, c, N); \
   P##_insert_range(&s, src, src + c); NOW(P, s, w); RANGE_SPEC(C); RANGE_POST(C, "insert(first,last)"); VF_REACH(); }
 #define H_CTOR_RANGE(P, C) void h_##P##_ctor_range(void) { VF_INPUT(P##_t, s); VF_INPUT(unsigned char, c); CELL_C(c); __CPROVER_assume(c <= N); VF_BUF(int, src, c, N); view_t o; o.n = 0; for (int i = 0; i <= N; ++i) o.a[i] = 0; \
   P##_ctor_range(&s, src, src + c); NOW(P, s, w); RANGE_SPEC(C); RANGE_POST(C, "set(first,last)"); VF_REACH(); }
-#define H_DEFAULT(P, C) void h_##P##_default(void) { VF_INPUT(P##_t, s); /* indeterminate storage */ P##_default(&s); VF_ASSERT(P##_SZ(s) == 0 && P##_size(&s) == 0 && P##_empty(&s) && P##_begin(&s) == P##_end(&s), "default construction: the empty set"); VF_REACH(); }
 
 /* erase(key) */
 #define H_ERASE_KEY(P, C, KNOWN) void h_##P##_erase_key(void) { ARB(P, C, s, o); VF_INPUT(int, k); VF_INPUT(int, g); KNOWN; \
@@ -259,31 +261,32 @@ _Static_assert(N == 4, "SAME_BYTES enumerates the slots of capacity 4");
   VF_ASSERT(r == BASE(P, s) + f, "erase(first,last) returns the iterator following the last removed element (first for an empty range)"); \
   _Bool gin = 0; for (int i = 0; i < N; ++i) if (i >= f && i < l && equiv(C, g, o.a[i])) gin = 1; \
   VF_ASSERT(v_member(w, C, g) == (v_member(o, C, g) && !gin), "erase(first,last): member'(g) == member(g) && g not in [first,last)"); VF_REACH(); }
-#define H_ERASE_IF(P, C) void h_##P##_erase_if(void) { ARB(P, C, s, o); VF_INPUT(int, g); unsigned long r = P##_erase_if(&s); NOW(P, s, w); view_t e = sp_erase_mult3(o); \
+#define H_ERASE_IF(P, C) void h_##P##_erase_if(void) { ARB(P, C, s, o); VF_INPUT(int, g); unsigned long r = P##_erase_if(&s); NOW(P, s, w); view_t e = sp_erase_odd(o); \
   VF_ASSERT(v_wf(w, C) && v_eq(w, e), "erase_if(s,pred): exactly the elements not satisfying pred survive, order kept"); VF_ASSERT(r == o.n - e.n, "erase_if returns the number of removed elements"); \
-  VF_ASSERT(v_member(w, C, g) == (v_member(o, C, g) && g % 3 != 0), "erase_if: member'(g) == member(g) && !pred(g)"); VF_REACH(); }
+  VF_ASSERT(v_member(w, C, g) == (v_member(o, C, g) && (g & 1) == 0), "erase_if: member'(g) == member(g) && !pred(g)"); VF_REACH(); }
 
-/* clear, swap (member and free), copy construction / assignment */
-#define H_WHOLE(P, C) void h_##P##_whole(void) { ARB(P, C, a, oa); ARB(P, C, b, ob); VF_INPUT(P##_t, t); VF_INPUT(unsigned char, which); \
-  switch (which) { \
-  case 0: P##_clear(&a); VF_ASSERT(P##_SZ(a) == 0 && P##_empty(&a) && P##_size(&a) == 0, "clear: the empty set"); break; \
-  case 1: case 2: { if (which == 1) P##_swap(&a, &b); else P##_swap_free(&a, &b); NOW(P, a, wa); NOW(P, b, wb); VF_ASSERT(v_wf(wa, C) && v_wf(wb, C) && v_eq(wa, ob) && v_eq(wb, oa), "swap exchanges the two sets"); break; } \
-  case 3: { P##_swap(&a, &a); NOW(P, a, wa); VF_ASSERT(v_eq(wa, oa), "self-swap keeps the set"); break; } \
-  case 4: { P##_copy_ctor(&t, &a); NOW(P, t, wt); NOW(P, a, wa); VF_ASSERT(v_eq(wt, oa) && v_eq(wa, oa), "copy construction: equal views, source unchanged"); break; } \
-  default: { P##_copy_assign(&b, &a); NOW(P, b, wb); NOW(P, a, wa); VF_ASSERT(v_eq(wb, oa) && v_eq(wa, oa), "copy assignment: equal views, source unchanged"); break; } } VF_REACH(); }
+/* clear, swap (member and free, self), copy construction / assignment; cells: one per operation */
+#define H_WHOLE(P, C) void h_##P##_whole(void) { ARB2(P, C, a, oa); ARB2(P, C, b, ob); VF_INPUT(P##_t, t); \
+  if (ON(0)) { P##_clear(&a); VF_ASSERT(P##_SZ(a) == 0 && P##_empty(&a) && P##_size(&a) == 0, "clear: the empty set"); } \
+  if (ON(1)) { P##_swap(&a, &b); NOW(P, a, wa); NOW(P, b, wb); VF_ASSERT(v_wf(wa, C) && v_wf(wb, C) && v_eq(wa, ob) && v_eq(wb, oa), "swap exchanges the two sets"); } \
+  if (ON(2)) { VIEW(oa, P##_SZ, P##_EL, a); VIEW(ob, P##_SZ, P##_EL, b); P##_swap_free(&a, &b); NOW(P, a, wa); NOW(P, b, wb); VF_ASSERT(v_eq(wa, ob) && v_eq(wb, oa), "swap(a,b) exchanges the two sets"); } \
+  if (ON(3)) { VIEW(oa, P##_SZ, P##_EL, a); P##_swap(&a, &a); NOW(P, a, wa); VF_ASSERT(v_eq(wa, oa), "self-swap keeps the set"); } \
+  if (ON(4)) { VIEW(oa, P##_SZ, P##_EL, a); P##_copy_ctor(&t, &a); NOW(P, t, wt); NOW(P, a, wa); VF_ASSERT(v_eq(wt, oa) && v_eq(wa, oa), "copy construction: equal views, source unchanged"); } \
+  if (ON(5)) { VIEW(oa, P##_SZ, P##_EL, a); P##_copy_assign(&b, &a); NOW(P, b, wb); NOW(P, a, wa); VF_ASSERT(v_eq(wb, oa) && v_eq(wa, oa), "copy assignment: equal views, source unchanged"); } \
+  VF_REACH(); }
 #define H_CLEAR(P, C) void h_##P##_clear(void) { ARB(P, C, a, oa); P##_clear(&a); VF_ASSERT(P##_SZ(a) == 0 && P##_empty(&a) && P##_size(&a) == 0, "clear: the empty set"); VF_REACH(); }
 
 /* relational operators: == compares the views; <,<=,>,>= are the lexicographic comparison by operator< of the elements */
-#define REL_EQ(P) VF_ASSERT(P##_eq(&a, &b) == eq && P##_ne(&a, &b) == !eq, "== and != compare size and elements")
-#define REL_ORD(P) VF_ASSERT(P##_lt(&a, &b) == (c < 0) && P##_le(&a, &b) == (c <= 0) && P##_gt(&a, &b) == (c > 0) && P##_ge(&a, &b) == (c >= 0), "<,<=,>,>= are the lexicographic comparison of the two element sequences")
-#define H_RELATIONAL(P, C) void h_##P##_relational(void) { ARB(P, C, a, oa); ARB(P, C, b, ob); int c = sp_lexcmp(oa, ob); _Bool eq = v_eq(oa, ob); REL_EQ(P); REL_ORD(P); VF_REACH(); }
+#define H_RELATIONAL(P, C) void h_##P##_relational(void) { ARB2(P, C, a, oa); ARB2(P, C, b, ob); int c = sp_lexcmp(oa, ob); _Bool eq = v_eq(oa, ob); \
+  if (ON(0)) VF_ASSERT(P##_eq(&a, &b) == eq && P##_ne(&a, &b) == !eq, "== and != compare size and elements"); \
+  if (ON(1)) VF_ASSERT(P##_lt(&a, &b) == (c < 0) && P##_ge(&a, &b) == (c >= 0), "< and >= are the lexicographic comparison of the two element sequences"); \
+  if (ON(2)) VF_ASSERT(P##_gt(&a, &b) == (c > 0) && P##_le(&a, &b) == (c <= 0), "> and <= are the lexicographic comparison of the two element sequences"); VF_REACH(); }
 
 /* flat_set: construction from a container (sorts, drops duplicates), sorted_unique construction, extract, replace */
-#define ARB_CONT(P, cn, oc) VF_INPUT(P##_c, cn); view_t oc; VIEW(oc, P##_CSZ, P##_CEL, cn); __CPROVER_assume(oc.n <= N)
+#define ARB_CONT(P, cn, oc) VF_INPUT(P##_c, cn); CELL_C(P##_CSZ(cn)); view_t oc; VIEW(oc, P##_CSZ, P##_CEL, cn); __CPROVER_assume(oc.n <= N)
 #define H_CTOR_CONT(P, C) void h_##P##_ctor_cont(void) { VF_INPUT(P##_t, s); VF_INPUT(int, g); ARB_CONT(P, cn, oc); P##_ctor_cont(&s, &cn); NOW(P, s, w); \
   view_t e; e.n = 0; for (int i = 0; i <= N; ++i) e.a[i] = 0; for (int i = 0; i < N; ++i) if ((unsigned long)i < oc.n) e = sp_insert(e, C, oc.a[i]); \
-  VF_ASSERT(v_wf(w, C), "flat_set(container): result is sorted and unique"); VF_ASSERT(v_eq(w, e), "flat_set(container): the sorted, de-duplicated contents of the container"); \
-  VF_ASSERT(v_member(w, C, g) == v_member(oc, C, g), "flat_set(container): member(g) iff the container holds a key equivalent to g"); VF_REACH(); }
+  VF_ASSERT(v_wf(w, C), "flat_set(container): result is sorted and unique"); VF_ASSERT(v_eq(w, e), "flat_set(container): the sorted, de-duplicated contents of the container (== fold of reference insertions; its membership law: lemma_insert_range)"); VF_REACH(); }
 #define H_CTOR_SORTED(P, C) void h_##P##_ctor_sorted(void) { VF_INPUT(P##_t, s); ARB_CONT(P, cn, oc); __CPROVER_assume(v_wf(oc, C)); P##_ctor_sorted_unique(&s, &cn); NOW(P, s, w); \
   VF_ASSERT(v_wf(w, C) && v_eq(w, oc), "flat_set(sorted_unique, container): adopts the sorted, unique container as it is"); VF_REACH(); }
 #define H_CTOR_SORTED_RANGE(P, C) void h_##P##_ctor_sorted_range(void) { VF_INPUT(P##_t, s); VF_INPUT(unsigned char, c); __CPROVER_assume(c <= N); VF_BUF(int, src, c, N); \
@@ -295,7 +298,7 @@ _Static_assert(N == 4, "SAME_BYTES enumerates the slots of capacity 4");
   VF_ASSERT(v_wf(w, C) && v_eq(w, oc), "replace(container): the set holds exactly the (sorted, unique) container"); VF_REACH(); }
 
 /* flat_multiset: construction from an unsorted container sorts it (a permutation: every key keeps its multiplicity) */
-#define H_MULTI(P, C, UNW) void h_##P##_ctor(void) { VF_INPUT(P##_t, s); VF_INPUT(P##_t, t); VF_INPUT(P##_t, d); VF_INPUT(int, g); ARB_CONT(P, cn, oc); \
+#define H_MULTI(P, C) void h_##P##_ctor(void) { VF_INPUT(P##_t, s); VF_INPUT(P##_t, t); VF_INPUT(P##_t, d); VF_INPUT(int, g); ARB_CONT(P, cn, oc); \
   P##_ctor_cont(&s, &cn); NOW(P, s, w); \
   VF_ASSERT(w.n == oc.n && v_sorted(w, C, 0), "flat_multiset(container): same size, sorted under the comparator (equivalent keys allowed)"); \
   VF_ASSERT(v_count(w, g) == v_count(oc, g), "flat_multiset(container): every key g keeps its multiplicity (the result is a permutation of the container)"); \
@@ -317,229 +320,235 @@ _Static_assert(N == 4, "SAME_BYTES enumerates the slots of capacity 4");
   VF_ASSERT(v_member(e, C, g) == (v_member(o, C, g) || gin), "insert(first,last): member'(g) == member(g) || g equivalent to a range element, for every key g"); VF_REACH(); }
 
 /* =================================================================== lemmas ======================================== */
-/*@GROUP name=lemma_insert_lt props=C09 kind=K unwind=6 solver=kissat@*/
+/*@GROUP name=lemma_insert_lt props=C09 kind=K unwind=6 timeout=100@*/
 H_LEMMA_INSERT(lemma_insert_lt, LT)
-/*@GROUP name=lemma_insert_gt props=C09 kind=K unwind=6 solver=kissat@*/
+/*@GROUP name=lemma_insert_gt props=C09 kind=K unwind=6 timeout=100@*/
 H_LEMMA_INSERT(lemma_insert_gt, GT)
-/*@GROUP name=lemma_insert_range_lt props=C09 kind=K unwind=6 solver=kissat@*/
+/*@GROUP name=lemma_insert_range_lt props=C09 kind=K unwind=6 timeout=100@*/
 H_LEMMA_INSERT_RANGE(lemma_insert_range_lt, LT)
-/*@GROUP name=lemma_insert_range_gt props=C09 kind=K unwind=6 solver=kissat@*/
+/*@GROUP name=lemma_insert_range_gt props=C09 kind=K unwind=6 timeout=100@*/
 H_LEMMA_INSERT_RANGE(lemma_insert_range_gt, GT)
 /* =================================================================== static_set ==================================== */
-/*@GROUP name=ss_lookup props=C09,C02 kind=K unwind=6 solver=kissat@*/
-H_LOOKUP(ss, LT, (void)0)
-/*@GROUP name=ss_observe props=C09,C02 kind=K unwind=6 solver=kissat@*/
+/*@GROUP name=ss_lookup props=C09,C02 kind=K unwind=6 timeout=100 split=SW:0:7@*/
+H_LOOKUP(ss, LT)
+/*@GROUP name=ss_observe props=C09,C02 kind=K unwind=6 timeout=100@*/
 H_OBSERVE_SS(ss, LT)
-/*@GROUP name=ss_default props=C09,C02 kind=K unwind=6 solver=kissat@*/
+/*@GROUP name=ss_default props=C09,C02 kind=K unwind=6 timeout=100@*/
 H_DEFAULT(ss, LT)
-/*@GROUP name=ss_insert props=C09,C02 kind=K unwind=6 solver=kissat split=SW:0:2 unwindset=_ZN3etl6rotateIPiEET_S2_S2_S2_.0:2@*/
-H_INSERT_SS(ss, LT, VF_KNOWN(C09_ss_insert_dup_null, v_member(o, LT, k)); VF_KNOWN(C09_ss_insert_back_end, !v_member(o, LT, k) && v_ub(o, LT, k) == o.n))
-/*@GROUP name=ss_insert_full props=C09,C02 kind=K unwind=6 solver=kissat@*/
+/*@GROUP name=ss_insert props=C09,C02 kind=K unwind=6 timeout=100 split=SW:0:2 unwindset=_ZN3etl6rotateIPiEET_S2_S2_S2_.0:2@*/
+H_INSERT_SS(ss, LT)
+/*@GROUP name=ss_insert_iter props=C09,C02 kind=K unwind=6 timeout=100 split=SW:0:2 unwindset=_ZN3etl6rotateIPiEET_S2_S2_S2_.0:2@*/
+H_INSERT_ITER_SS(ss, LT, VF_KNOWN(C09_ss_insert_dup_null, v_member(o, LT, k)); VF_KNOWN(C09_ss_insert_iter_next, !v_member(o, LT, k)))
+/*@GROUP name=ss_insert_full props=C09,C02 kind=K unwind=6 timeout=100 split=SW:0:2 unwindset=_ZN3etl6rotateIPiEET_S2_S2_S2_.0:2@*/
 H_INSERT_FULL_SS(ss, LT)
-/*@GROUP name=ss_insert_range props=C09,C02 kind=K unwind=6 solver=kissat split=SX:0:10 unwindset=_ZN3etl6rotateIPiEET_S2_S2_S2_.0:2@*/
+/*@GROUP name=ss_insert_range props=C09,C02 kind=K unwind=6 timeout=100 split=SX:0:10 unwindset=_ZN3etl6rotateIPiEET_S2_S2_S2_.0:2@*/
 H_INSERT_RANGE(ss, LT)
-/*@GROUP name=ss_ctor_range props=C09,C02 kind=K unwind=6 solver=kissat split=SC:0:4 unwindset=_ZN3etl6rotateIPiEET_S2_S2_S2_.0:2@*/
+/*@GROUP name=ss_ctor_range props=C09,C02 kind=K unwind=6 timeout=100 split=SC:0:4 unwindset=_ZN3etl6rotateIPiEET_S2_S2_S2_.0:2@*/
 H_CTOR_RANGE(ss, LT)
-/*@GROUP name=ss_erase_key props=C09,C02 kind=K unwind=6 solver=kissat@*/
+/*@GROUP name=ss_erase_key props=C09,C02 kind=K unwind=6 timeout=100@*/
 H_ERASE_KEY(ss, LT, VF_KNOWN(C09_ss_erase_key_absent, !v_member(o, LT, k) && v_some_greater(o, k)))
-/*@GROUP name=ss_erase_it props=C09,C02 kind=K unwind=6 solver=kissat@*/
+/*@GROUP name=ss_erase_it props=C09,C02 kind=K unwind=6 timeout=100@*/
 H_ERASE_IT_SS(ss, LT)
-/*@GROUP name=ss_erase_range props=C09,C02 kind=K unwind=6 solver=kissat@*/
+/*@GROUP name=ss_erase_range props=C09,C02 kind=K unwind=6 timeout=100@*/
 H_ERASE_RANGE(ss, LT, VF_KNOWN(C09_ss_erase_range_skip, l - f >= 2))
-/*@GROUP name=ss_whole props=C09,C02 kind=K unwind=6 solver=kissat@*/
+/*@GROUP name=ss_whole props=C09,C02 kind=K unwind=6 timeout=100 split=SW:0:5@*/
 H_WHOLE(ss, LT)
-/*@GROUP name=ss_relational props=C09,C02 kind=K unwind=6 solver=kissat@*/
+/*@GROUP name=ss_relational props=C09,C02 kind=K unwind=6 timeout=100 split=SW:0:2@*/
 H_RELATIONAL(ss, LT)
-/*@GROUP name=ssg_lookup props=C09,C02 kind=K unwind=6 solver=kissat@*/
-H_LOOKUP(ssg, GT, (void)0)
-/*@GROUP name=ssg_observe props=C09,C02 kind=K unwind=6 solver=kissat@*/
+/*@GROUP name=ssg_lookup props=C09,C02 kind=K unwind=6 timeout=100 split=SW:0:7@*/
+H_LOOKUP(ssg, GT)
+/*@GROUP name=ssg_observe props=C09,C02 kind=K unwind=6 timeout=100@*/
 H_OBSERVE_SS(ssg, GT)
-/*@GROUP name=ssg_default props=C09,C02 kind=K unwind=6 solver=kissat@*/
+/*@GROUP name=ssg_default props=C09,C02 kind=K unwind=6 timeout=100@*/
 H_DEFAULT(ssg, GT)
-/*@GROUP name=ssg_insert props=C09,C02 kind=K unwind=6 solver=kissat split=SW:0:2 unwindset=_ZN3etl6rotateIPiEET_S2_S2_S2_.0:2@*/
-H_INSERT_SS(ssg, GT, VF_KNOWN(C09_ss_insert_dup_null, v_member(o, GT, k)); VF_KNOWN(C09_ss_insert_back_end, !v_member(o, GT, k) && v_ub(o, GT, k) == o.n))
-/*@GROUP name=ssg_insert_full props=C09,C02 kind=K unwind=6 solver=kissat@*/
+/*@GROUP name=ssg_insert props=C09,C02 kind=K unwind=6 timeout=100 split=SW:0:2 unwindset=_ZN3etl6rotateIPiEET_S2_S2_S2_.0:2@*/
+H_INSERT_SS(ssg, GT)
+/*@GROUP name=ssg_insert_iter props=C09,C02 kind=K unwind=6 timeout=100 split=SW:0:2 unwindset=_ZN3etl6rotateIPiEET_S2_S2_S2_.0:2@*/
+H_INSERT_ITER_SS(ssg, GT, VF_KNOWN(C09_ss_insert_dup_null, v_member(o, GT, k)); VF_KNOWN(C09_ss_insert_iter_next, !v_member(o, GT, k)))
+/*@GROUP name=ssg_insert_full props=C09,C02 kind=K unwind=6 timeout=100 split=SW:0:2 unwindset=_ZN3etl6rotateIPiEET_S2_S2_S2_.0:2@*/
 H_INSERT_FULL_SS(ssg, GT)
-/*@GROUP name=ssg_insert_range props=C09,C02 kind=K unwind=6 solver=kissat split=SX:0:10 unwindset=_ZN3etl6rotateIPiEET_S2_S2_S2_.0:2 tier=thorough@*/
+/*@GROUP name=ssg_insert_range props=C09,C02 kind=K unwind=6 timeout=100 split=SX:0:10 unwindset=_ZN3etl6rotateIPiEET_S2_S2_S2_.0:2 tier=thorough@*/
 H_INSERT_RANGE(ssg, GT)
-/*@GROUP name=ssg_ctor_range props=C09,C02 kind=K unwind=6 solver=kissat split=SC:0:4 unwindset=_ZN3etl6rotateIPiEET_S2_S2_S2_.0:2 tier=thorough@*/
+/*@GROUP name=ssg_ctor_range props=C09,C02 kind=K unwind=6 timeout=100 split=SC:0:4 unwindset=_ZN3etl6rotateIPiEET_S2_S2_S2_.0:2 tier=thorough@*/
 H_CTOR_RANGE(ssg, GT)
-/*@GROUP name=ssg_erase_key props=C09,C02 kind=K unwind=6 solver=kissat@*/
+/*@GROUP name=ssg_erase_key props=C09,C02 kind=K unwind=6 timeout=100@*/
 H_ERASE_KEY(ssg, GT, VF_KNOWN(C09_ss_erase_key_absent, !v_member(o, GT, k) && v_some_greater(o, k)); VF_KNOWN(C09_ss_erase_key_compare, v_member(o, GT, k) && o.n >= 2))
-/*@GROUP name=ssg_erase_it props=C09,C02 kind=K unwind=6 solver=kissat@*/
+/*@GROUP name=ssg_erase_it props=C09,C02 kind=K unwind=6 timeout=100@*/
 H_ERASE_IT_SS(ssg, GT)
-/*@GROUP name=ssg_erase_range props=C09,C02 kind=K unwind=6 solver=kissat@*/
+/*@GROUP name=ssg_erase_range props=C09,C02 kind=K unwind=6 timeout=100@*/
 H_ERASE_RANGE(ssg, GT, VF_KNOWN(C09_ss_erase_range_skip, l - f >= 2))
-/*@GROUP name=ssg_whole props=C09,C02 kind=K unwind=6 solver=kissat@*/
+/*@GROUP name=ssg_whole props=C09,C02 kind=K unwind=6 timeout=100 split=SW:0:5@*/
 H_WHOLE(ssg, GT)
-/*@GROUP name=ssg_relational props=C09,C02 kind=K unwind=6 solver=kissat@*/
+/*@GROUP name=ssg_relational props=C09,C02 kind=K unwind=6 timeout=100 split=SW:0:2@*/
 H_RELATIONAL(ssg, GT)
-/*@GROUP name=sst_lookup props=C09,C02 kind=K unwind=6 solver=kissat@*/
-H_LOOKUP(sst, LT, (void)0)
-/*@GROUP name=sst_observe props=C09,C02 kind=K unwind=6 solver=kissat@*/
+/*@GROUP name=sst_lookup props=C09,C02 kind=K unwind=6 timeout=100 split=SW:0:7@*/
+H_LOOKUP(sst, LT)
+/*@GROUP name=sst_observe props=C09,C02 kind=K unwind=6 timeout=100@*/
 H_OBSERVE_SS(sst, LT)
-/*@GROUP name=sst_default props=C09,C02 kind=K unwind=6 solver=kissat@*/
+/*@GROUP name=sst_default props=C09,C02 kind=K unwind=6 timeout=100@*/
 H_DEFAULT(sst, LT)
-/*@GROUP name=sst_insert props=C09,C02 kind=K unwind=6 solver=kissat split=SW:0:2 unwindset=_ZN3etl6rotateIPiEET_S2_S2_S2_.0:2@*/
-H_INSERT_SS(sst, LT, VF_KNOWN(C09_ss_insert_dup_null, v_member(o, LT, k)); VF_KNOWN(C09_ss_insert_back_end, !v_member(o, LT, k) && v_ub(o, LT, k) == o.n))
-/*@GROUP name=sst_insert_full props=C09,C02 kind=K unwind=6 solver=kissat@*/
+/*@GROUP name=sst_insert props=C09,C02 kind=K unwind=6 timeout=100 split=SW:0:2 unwindset=_ZN3etl6rotateIPiEET_S2_S2_S2_.0:2@*/
+H_INSERT_SS(sst, LT)
+/*@GROUP name=sst_insert_iter props=C09,C02 kind=K unwind=6 timeout=100 split=SW:0:2 unwindset=_ZN3etl6rotateIPiEET_S2_S2_S2_.0:2@*/
+H_INSERT_ITER_SS(sst, LT, VF_KNOWN(C09_ss_insert_dup_null, v_member(o, LT, k)); VF_KNOWN(C09_ss_insert_iter_next, !v_member(o, LT, k)))
+/*@GROUP name=sst_insert_full props=C09,C02 kind=K unwind=6 timeout=100 split=SW:0:2 unwindset=_ZN3etl6rotateIPiEET_S2_S2_S2_.0:2@*/
 H_INSERT_FULL_SS(sst, LT)
-/*@GROUP name=sst_insert_range props=C09,C02 kind=K unwind=6 solver=kissat split=SX:0:10 unwindset=_ZN3etl6rotateIPiEET_S2_S2_S2_.0:2 tier=thorough@*/
+/*@GROUP name=sst_insert_range props=C09,C02 kind=K unwind=6 timeout=100 split=SX:0:10 unwindset=_ZN3etl6rotateIPiEET_S2_S2_S2_.0:2 tier=thorough@*/
 H_INSERT_RANGE(sst, LT)
-/*@GROUP name=sst_ctor_range props=C09,C02 kind=K unwind=6 solver=kissat split=SC:0:4 unwindset=_ZN3etl6rotateIPiEET_S2_S2_S2_.0:2 tier=thorough@*/
+/*@GROUP name=sst_ctor_range props=C09,C02 kind=K unwind=6 timeout=100 split=SC:0:4 unwindset=_ZN3etl6rotateIPiEET_S2_S2_S2_.0:2 tier=thorough@*/
 H_CTOR_RANGE(sst, LT)
-/*@GROUP name=sst_erase_key props=C09,C02 kind=K unwind=6 solver=kissat@*/
+/*@GROUP name=sst_erase_key props=C09,C02 kind=K unwind=6 timeout=100@*/
 H_ERASE_KEY(sst, LT, VF_KNOWN(C09_ss_erase_key_absent, !v_member(o, LT, k) && v_some_greater(o, k)))
-/*@GROUP name=sst_erase_it props=C09,C02 kind=K unwind=6 solver=kissat@*/
+/*@GROUP name=sst_erase_it props=C09,C02 kind=K unwind=6 timeout=100@*/
 H_ERASE_IT_SS(sst, LT)
-/*@GROUP name=sst_erase_range props=C09,C02 kind=K unwind=6 solver=kissat@*/
+/*@GROUP name=sst_erase_range props=C09,C02 kind=K unwind=6 timeout=100@*/
 H_ERASE_RANGE(sst, LT, VF_KNOWN(C09_ss_erase_range_skip, l - f >= 2))
-/*@GROUP name=sst_whole props=C09,C02 kind=K unwind=6 solver=kissat@*/
+/*@GROUP name=sst_whole props=C09,C02 kind=K unwind=6 timeout=100 split=SW:0:5@*/
 H_WHOLE(sst, LT)
-/*@GROUP name=sst_relational props=C09,C02 kind=K unwind=6 solver=kissat@*/
+/*@GROUP name=sst_relational props=C09,C02 kind=K unwind=6 timeout=100 split=SW:0:2@*/
 H_RELATIONAL(sst, LT)
-/*@GROUP name=sst_lookup_h props=C09,C02 kind=K unwind=6 solver=kissat@*/
+/*@GROUP name=sst_lookup_h props=C09,C02 kind=K unwind=6 timeout=100 split=SW:0:7@*/
 H_LOOKUP_H(sst, LT, VF_KNOWN(C09_ss_find_transparent, o.n > 0 && o.a[0] <= k))
 /* =================================================================== flat_set over static_vector ================== */
-/*@GROUP name=fs_lookup props=C09,C02 kind=K unwind=6 solver=kissat@*/
-H_LOOKUP(fs, LT, (void)0)
-/*@GROUP name=fs_equal_range props=C09,C02 kind=K unwind=6 solver=kissat@*/
+/*@GROUP name=fs_lookup props=C09,C02 kind=K unwind=6 timeout=100 split=SW:0:7@*/
+H_LOOKUP(fs, LT)
+/*@GROUP name=fs_equal_range props=C09,C02 kind=K unwind=6 timeout=100 split=SW:0:1@*/
 H_EQUAL_RANGE(fs, LT)
-/*@GROUP name=fs_observe props=C09,C02 kind=K unwind=6 solver=kissat@*/
+/*@GROUP name=fs_observe props=C09,C02 kind=K unwind=6 timeout=100@*/
 H_OBSERVE_FS(fs, LT)
-/*@GROUP name=fs_default props=C09,C02 kind=K unwind=6 solver=kissat@*/
+/*@GROUP name=fs_default props=C09,C02 kind=K unwind=6 timeout=100@*/
 H_DEFAULT(fs, LT)
-/*@GROUP name=fs_insert props=C09,C02 kind=K unwind=6 solver=kissat split=SW:0:5 unwindset=_ZN3etl6rotateIPiEET_S2_S2_S2_.0:2@*/
+/*@GROUP name=fs_insert props=C09,C02 kind=K unwind=6 timeout=100 split=SW:0:5 unwindset=_ZN3etl6rotateIPiEET_S2_S2_S2_.0:2@*/
 H_INSERT_FS(fs, LT)
-/*@GROUP name=fs_insert_full props=C09,C02,C05 kind=K unwind=6 solver=kissat@*/
+/*@GROUP name=fs_insert_full props=C09,C02,C05 kind=K unwind=6 timeout=100 split=SW:0:5 unwindset=_ZN3etl6rotateIPiEET_S2_S2_S2_.0:2@*/
 H_INSERT_FULL_FS(fs, LT)
-/*@GROUP name=fs_insert_range props=C09,C02 kind=K unwind=6 solver=kissat split=SX:0:10 unwindset=_ZN3etl6rotateIPiEET_S2_S2_S2_.0:2@*/
+/*@GROUP name=fs_insert_range props=C09,C02 kind=K unwind=6 timeout=100 split=SX:0:10 unwindset=_ZN3etl6rotateIPiEET_S2_S2_S2_.0:2@*/
 H_INSERT_RANGE(fs, LT)
-/*@GROUP name=fs_ctor_range props=C09,C02 kind=K unwind=6 solver=kissat split=SC:0:4 unwindset=_ZN3etl6rotateIPiEET_S2_S2_S2_.0:2@*/
+/*@GROUP name=fs_ctor_range props=C09,C02 kind=K unwind=6 timeout=100 split=SC:0:4 unwindset=_ZN3etl6rotateIPiEET_S2_S2_S2_.0:2@*/
 H_CTOR_RANGE(fs, LT)
-/*@GROUP name=fs_ctor_cont props=C09,C02 kind=K unwind=6 solver=kissat@*/
+/*@GROUP name=fs_ctor_cont props=C09,C02 kind=K unwind=6 timeout=100 split=SC:0:4 unwindset=_ZN3etl6rotateIPiEET_S2_S2_S2_.0:2@*/
 H_CTOR_CONT(fs, LT)
-/*@GROUP name=fs_ctor_sorted props=C09,C02 kind=K unwind=6 solver=kissat@*/
+/*@GROUP name=fs_ctor_sorted props=C09,C02 kind=K unwind=6 timeout=100@*/
 H_CTOR_SORTED(fs, LT)
-/*@GROUP name=fs_ctor_sorted_range props=C09,C02 kind=K unwind=6 solver=kissat@*/
+/*@GROUP name=fs_ctor_sorted_range props=C09,C02 kind=K unwind=6 timeout=100@*/
 H_CTOR_SORTED_RANGE(fs, LT)
-/*@GROUP name=fs_extract props=C09,C02 kind=K unwind=6 solver=kissat@*/
+/*@GROUP name=fs_extract props=C09,C02 kind=K unwind=6 timeout=100@*/
 H_EXTRACT(fs, LT, VF_KNOWN(C09_fs_extract_empty, o.n > 0))
-/*@GROUP name=fs_replace props=C09,C02 kind=K unwind=6 solver=kissat@*/
+/*@GROUP name=fs_replace props=C09,C02 kind=K unwind=6 timeout=100@*/
 H_REPLACE(fs, LT)
-/*@GROUP name=fs_erase_key props=C09,C02 kind=K unwind=6 solver=kissat@*/
+/*@GROUP name=fs_erase_key props=C09,C02 kind=K unwind=6 timeout=100@*/
 H_ERASE_KEY(fs, LT, (void)0)
-/*@GROUP name=fs_erase_it props=C09,C02 kind=K unwind=6 solver=kissat@*/
+/*@GROUP name=fs_erase_it props=C09,C02 kind=K unwind=6 timeout=100@*/
 H_ERASE_IT_FS(fs, LT)
-/*@GROUP name=fs_erase_range props=C09,C02 kind=K unwind=6 solver=kissat@*/
+/*@GROUP name=fs_erase_range props=C09,C02 kind=K unwind=6 timeout=100@*/
 H_ERASE_RANGE(fs, LT, (void)0)
-/*@GROUP name=fs_erase_if props=C09,C02 kind=K unwind=6 solver=kissat@*/
+/*@GROUP name=fs_erase_if props=C09,C02 kind=K unwind=6 timeout=100@*/
 H_ERASE_IF(fs, LT)
-/*@GROUP name=fs_whole props=C09,C02 kind=K unwind=6 solver=kissat@*/
+/*@GROUP name=fs_whole props=C09,C02 kind=K unwind=6 timeout=100 split=SW:0:5@*/
 H_WHOLE(fs, LT)
-/*@GROUP name=fs_relational props=C09,C02 kind=K unwind=6 solver=kissat@*/
+/*@GROUP name=fs_relational props=C09,C02 kind=K unwind=6 timeout=100 split=SW:0:2@*/
 H_RELATIONAL(fs, LT)
-/*@GROUP name=fsg_lookup props=C09,C02 kind=K unwind=6 solver=kissat@*/
-H_LOOKUP(fsg, GT, (void)0)
-/*@GROUP name=fsg_equal_range props=C09,C02 kind=K unwind=6 solver=kissat@*/
+/*@GROUP name=fsg_lookup props=C09,C02 kind=K unwind=6 timeout=100 split=SW:0:7@*/
+H_LOOKUP(fsg, GT)
+/*@GROUP name=fsg_equal_range props=C09,C02 kind=K unwind=6 timeout=100 split=SW:0:1@*/
 H_EQUAL_RANGE(fsg, GT)
-/*@GROUP name=fsg_observe props=C09,C02 kind=K unwind=6 solver=kissat@*/
+/*@GROUP name=fsg_observe props=C09,C02 kind=K unwind=6 timeout=100@*/
 H_OBSERVE_FS(fsg, GT)
-/*@GROUP name=fsg_default props=C09,C02 kind=K unwind=6 solver=kissat@*/
+/*@GROUP name=fsg_default props=C09,C02 kind=K unwind=6 timeout=100@*/
 H_DEFAULT(fsg, GT)
-/*@GROUP name=fsg_insert props=C09,C02 kind=K unwind=6 solver=kissat split=SW:0:5 unwindset=_ZN3etl6rotateIPiEET_S2_S2_S2_.0:2@*/
+/*@GROUP name=fsg_insert props=C09,C02 kind=K unwind=6 timeout=100 split=SW:0:5 unwindset=_ZN3etl6rotateIPiEET_S2_S2_S2_.0:2@*/
 H_INSERT_FS(fsg, GT)
-/*@GROUP name=fsg_insert_full props=C09,C02,C05 kind=K unwind=6 solver=kissat@*/
+/*@GROUP name=fsg_insert_full props=C09,C02,C05 kind=K unwind=6 timeout=100 split=SW:0:5 unwindset=_ZN3etl6rotateIPiEET_S2_S2_S2_.0:2@*/
 H_INSERT_FULL_FS(fsg, GT)
-/*@GROUP name=fsg_insert_range props=C09,C02 kind=K unwind=6 solver=kissat split=SX:0:10 unwindset=_ZN3etl6rotateIPiEET_S2_S2_S2_.0:2 tier=thorough@*/
+/*@GROUP name=fsg_insert_range props=C09,C02 kind=K unwind=6 timeout=100 split=SX:0:10 unwindset=_ZN3etl6rotateIPiEET_S2_S2_S2_.0:2 tier=thorough@*/
 H_INSERT_RANGE(fsg, GT)
-/*@GROUP name=fsg_ctor_range props=C09,C02 kind=K unwind=6 solver=kissat split=SC:0:4 unwindset=_ZN3etl6rotateIPiEET_S2_S2_S2_.0:2 tier=thorough@*/
+/*@GROUP name=fsg_ctor_range props=C09,C02 kind=K unwind=6 timeout=100 split=SC:0:4 unwindset=_ZN3etl6rotateIPiEET_S2_S2_S2_.0:2 tier=thorough@*/
 H_CTOR_RANGE(fsg, GT)
-/*@GROUP name=fsg_ctor_cont props=C09,C02 kind=K unwind=6 solver=kissat@*/
+/*@GROUP name=fsg_ctor_cont props=C09,C02 kind=K unwind=6 timeout=100 split=SC:0:4 unwindset=_ZN3etl6rotateIPiEET_S2_S2_S2_.0:2@*/
 H_CTOR_CONT(fsg, GT)
-/*@GROUP name=fsg_ctor_sorted props=C09,C02 kind=K unwind=6 solver=kissat@*/
+/*@GROUP name=fsg_ctor_sorted props=C09,C02 kind=K unwind=6 timeout=100@*/
 H_CTOR_SORTED(fsg, GT)
-/*@GROUP name=fsg_ctor_sorted_range props=C09,C02 kind=K unwind=6 solver=kissat@*/
+/*@GROUP name=fsg_ctor_sorted_range props=C09,C02 kind=K unwind=6 timeout=100@*/
 H_CTOR_SORTED_RANGE(fsg, GT)
-/*@GROUP name=fsg_extract props=C09,C02 kind=K unwind=6 solver=kissat@*/
+/*@GROUP name=fsg_extract props=C09,C02 kind=K unwind=6 timeout=100@*/
 H_EXTRACT(fsg, GT, VF_KNOWN(C09_fs_extract_empty, o.n > 0))
-/*@GROUP name=fsg_replace props=C09,C02 kind=K unwind=6 solver=kissat@*/
+/*@GROUP name=fsg_replace props=C09,C02 kind=K unwind=6 timeout=100@*/
 H_REPLACE(fsg, GT)
-/*@GROUP name=fsg_erase_key props=C09,C02 kind=K unwind=6 solver=kissat@*/
+/*@GROUP name=fsg_erase_key props=C09,C02 kind=K unwind=6 timeout=100@*/
 H_ERASE_KEY(fsg, GT, (void)0)
-/*@GROUP name=fsg_erase_it props=C09,C02 kind=K unwind=6 solver=kissat@*/
+/*@GROUP name=fsg_erase_it props=C09,C02 kind=K unwind=6 timeout=100@*/
 H_ERASE_IT_FS(fsg, GT)
-/*@GROUP name=fsg_erase_range props=C09,C02 kind=K unwind=6 solver=kissat@*/
+/*@GROUP name=fsg_erase_range props=C09,C02 kind=K unwind=6 timeout=100@*/
 H_ERASE_RANGE(fsg, GT, (void)0)
-/*@GROUP name=fsg_erase_if props=C09,C02 kind=K unwind=6 solver=kissat@*/
+/*@GROUP name=fsg_erase_if props=C09,C02 kind=K unwind=6 timeout=100@*/
 H_ERASE_IF(fsg, GT)
-/*@GROUP name=fsg_whole props=C09,C02 kind=K unwind=6 solver=kissat@*/
+/*@GROUP name=fsg_whole props=C09,C02 kind=K unwind=6 timeout=100 split=SW:0:5@*/
 H_WHOLE(fsg, GT)
-/*@GROUP name=fsg_relational props=C09,C02 kind=K unwind=6 solver=kissat@*/
+/*@GROUP name=fsg_relational props=C09,C02 kind=K unwind=6 timeout=100 split=SW:0:2@*/
 H_RELATIONAL(fsg, GT)
-/*@GROUP name=fst_lookup props=C09,C02 kind=K unwind=6 solver=kissat@*/
-H_LOOKUP(fst, LT, (void)0)
-/*@GROUP name=fst_equal_range props=C09,C02 kind=K unwind=6 solver=kissat@*/
+/*@GROUP name=fst_lookup props=C09,C02 kind=K unwind=6 timeout=100 split=SW:0:7@*/
+H_LOOKUP(fst, LT)
+/*@GROUP name=fst_equal_range props=C09,C02 kind=K unwind=6 timeout=100 split=SW:0:1@*/
 H_EQUAL_RANGE(fst, LT)
-/*@GROUP name=fst_observe props=C09,C02 kind=K unwind=6 solver=kissat@*/
+/*@GROUP name=fst_observe props=C09,C02 kind=K unwind=6 timeout=100@*/
 H_OBSERVE_FS(fst, LT)
-/*@GROUP name=fst_default props=C09,C02 kind=K unwind=6 solver=kissat@*/
+/*@GROUP name=fst_default props=C09,C02 kind=K unwind=6 timeout=100@*/
 H_DEFAULT(fst, LT)
-/*@GROUP name=fst_insert props=C09,C02 kind=K unwind=6 solver=kissat split=SW:0:5 unwindset=_ZN3etl6rotateIPiEET_S2_S2_S2_.0:2@*/
+/*@GROUP name=fst_insert props=C09,C02 kind=K unwind=6 timeout=100 split=SW:0:5 unwindset=_ZN3etl6rotateIPiEET_S2_S2_S2_.0:2@*/
 H_INSERT_FS(fst, LT)
-/*@GROUP name=fst_insert_full props=C09,C02,C05 kind=K unwind=6 solver=kissat@*/
+/*@GROUP name=fst_insert_full props=C09,C02,C05 kind=K unwind=6 timeout=100 split=SW:0:5 unwindset=_ZN3etl6rotateIPiEET_S2_S2_S2_.0:2@*/
 H_INSERT_FULL_FS(fst, LT)
-/*@GROUP name=fst_insert_range props=C09,C02 kind=K unwind=6 solver=kissat split=SX:0:10 unwindset=_ZN3etl6rotateIPiEET_S2_S2_S2_.0:2 tier=thorough@*/
+/*@GROUP name=fst_insert_range props=C09,C02 kind=K unwind=6 timeout=100 split=SX:0:10 unwindset=_ZN3etl6rotateIPiEET_S2_S2_S2_.0:2 tier=thorough@*/
 H_INSERT_RANGE(fst, LT)
-/*@GROUP name=fst_ctor_range props=C09,C02 kind=K unwind=6 solver=kissat split=SC:0:4 unwindset=_ZN3etl6rotateIPiEET_S2_S2_S2_.0:2 tier=thorough@*/
+/*@GROUP name=fst_ctor_range props=C09,C02 kind=K unwind=6 timeout=100 split=SC:0:4 unwindset=_ZN3etl6rotateIPiEET_S2_S2_S2_.0:2 tier=thorough@*/
 H_CTOR_RANGE(fst, LT)
-/*@GROUP name=fst_ctor_cont props=C09,C02 kind=K unwind=6 solver=kissat@*/
+/*@GROUP name=fst_ctor_cont props=C09,C02 kind=K unwind=6 timeout=100 split=SC:0:4 unwindset=_ZN3etl6rotateIPiEET_S2_S2_S2_.0:2@*/
 H_CTOR_CONT(fst, LT)
-/*@GROUP name=fst_ctor_sorted props=C09,C02 kind=K unwind=6 solver=kissat@*/
+/*@GROUP name=fst_ctor_sorted props=C09,C02 kind=K unwind=6 timeout=100@*/
 H_CTOR_SORTED(fst, LT)
-/*@GROUP name=fst_ctor_sorted_range props=C09,C02 kind=K unwind=6 solver=kissat@*/
+/*@GROUP name=fst_ctor_sorted_range props=C09,C02 kind=K unwind=6 timeout=100@*/
 H_CTOR_SORTED_RANGE(fst, LT)
-/*@GROUP name=fst_extract props=C09,C02 kind=K unwind=6 solver=kissat@*/
+/*@GROUP name=fst_extract props=C09,C02 kind=K unwind=6 timeout=100@*/
 H_EXTRACT(fst, LT, VF_KNOWN(C09_fs_extract_empty, o.n > 0))
-/*@GROUP name=fst_replace props=C09,C02 kind=K unwind=6 solver=kissat@*/
+/*@GROUP name=fst_replace props=C09,C02 kind=K unwind=6 timeout=100@*/
 H_REPLACE(fst, LT)
-/*@GROUP name=fst_erase_key props=C09,C02 kind=K unwind=6 solver=kissat@*/
+/*@GROUP name=fst_erase_key props=C09,C02 kind=K unwind=6 timeout=100@*/
 H_ERASE_KEY(fst, LT, (void)0)
-/*@GROUP name=fst_erase_it props=C09,C02 kind=K unwind=6 solver=kissat@*/
+/*@GROUP name=fst_erase_it props=C09,C02 kind=K unwind=6 timeout=100@*/
 H_ERASE_IT_FS(fst, LT)
-/*@GROUP name=fst_erase_range props=C09,C02 kind=K unwind=6 solver=kissat@*/
+/*@GROUP name=fst_erase_range props=C09,C02 kind=K unwind=6 timeout=100@*/
 H_ERASE_RANGE(fst, LT, (void)0)
-/*@GROUP name=fst_erase_if props=C09,C02 kind=K unwind=6 solver=kissat@*/
+/*@GROUP name=fst_erase_if props=C09,C02 kind=K unwind=6 timeout=100@*/
 H_ERASE_IF(fst, LT)
-/*@GROUP name=fst_whole props=C09,C02 kind=K unwind=6 solver=kissat@*/
+/*@GROUP name=fst_whole props=C09,C02 kind=K unwind=6 timeout=100 split=SW:0:5@*/
 H_WHOLE(fst, LT)
-/*@GROUP name=fst_relational props=C09,C02 kind=K unwind=6 solver=kissat@*/
+/*@GROUP name=fst_relational props=C09,C02 kind=K unwind=6 timeout=100 split=SW:0:2@*/
 H_RELATIONAL(fst, LT)
-/*@GROUP name=fst_lookup_h props=C09,C02 kind=K unwind=6 solver=kissat@*/
+/*@GROUP name=fst_lookup_h props=C09,C02 kind=K unwind=6 timeout=100 split=SW:0:7@*/
 H_LOOKUP_H(fst, LT, (void)0)
-/*@GROUP name=fst_equal_range_h props=C09,C02 kind=K unwind=6 solver=kissat@*/
+/*@GROUP name=fst_equal_range_h props=C09,C02 kind=K unwind=6 timeout=100 split=SW:0:1@*/
 H_EQUAL_RANGE_H(fst, LT)
-/* =================================================================== flat_set over inplace_vector (no modifiers: inplace_vector has no emplace(pos)/erase/assignment) */
-/*@GROUP name=fsi_lookup props=C09,C02 kind=K unwind=6 solver=kissat@*/
-H_LOOKUP(fsi, LT, (void)0)
-/*@GROUP name=fsi_equal_range props=C09,C02 kind=K unwind=6 solver=kissat@*/
+/* =================================================================== flat_set over inplace_vector (no modifiers: inplace_vector has no emplace(pos)/erase/assignment/rbegin) */
+/*@GROUP name=fsi_lookup props=C09,C02 kind=K unwind=6 timeout=100 split=SW:0:7@*/
+H_LOOKUP(fsi, LT)
+/*@GROUP name=fsi_equal_range props=C09,C02 kind=K unwind=6 timeout=100 split=SW:0:1@*/
 H_EQUAL_RANGE(fsi, LT)
-/*@GROUP name=fsi_observe props=C09,C02 kind=K unwind=6 solver=kissat@*/
+/*@GROUP name=fsi_observe props=C09,C02 kind=K unwind=6 timeout=100@*/
 H_OBSERVE_FSI(fsi, LT)
-/*@GROUP name=fsi_default props=C09,C02 kind=K unwind=6 solver=kissat@*/
+/*@GROUP name=fsi_default props=C09,C02 kind=K unwind=6 timeout=100@*/
 H_DEFAULT(fsi, LT)
-/*@GROUP name=fsi_ctor_sorted props=C09,C02 kind=K unwind=6 solver=kissat@*/
+/*@GROUP name=fsi_ctor_sorted props=C09,C02 kind=K unwind=6 timeout=100@*/
 H_CTOR_SORTED(fsi, LT)
-/*@GROUP name=fsi_extract props=C09,C02 kind=K unwind=6 solver=kissat@*/
+/*@GROUP name=fsi_extract props=C09,C02 kind=K unwind=6 timeout=100@*/
 H_EXTRACT(fsi, LT, VF_KNOWN(C09_fs_extract_empty, o.n > 0))
-/*@GROUP name=fsi_clear props=C09,C02 kind=K unwind=6 solver=kissat@*/
+/*@GROUP name=fsi_clear props=C09,C02 kind=K unwind=6 timeout=100@*/
 H_CLEAR(fsi, LT)
-/*@GROUP name=fsi_relational props=C09,C02 kind=K unwind=6 solver=kissat@*/
+/*@GROUP name=fsi_relational props=C09,C02 kind=K unwind=6 timeout=100 split=SW:0:2@*/
 H_RELATIONAL(fsi, LT)
 /* =================================================================== flat_multiset ================================= */
-/*@GROUP name=fm_ctor props=C09,C02 kind=K unwind=20 solver=kissat@*/
-H_MULTI(fm, LT, 0)
-/*@GROUP name=fmg_ctor props=C09,C02 kind=K unwind=20 solver=kissat@*/
-H_MULTI(fmg, GT, 0)
-/*@GROUP name=fmi_ctor props=C09,C02 kind=K unwind=20 solver=kissat@*/
-H_MULTI(fmi, LT, 0)
+/*@GROUP name=fm_ctor props=C09,C02 kind=K unwind=20 timeout=100@*/
+H_MULTI(fm, LT)
+/*@GROUP name=fmg_ctor props=C09,C02 kind=K unwind=20 timeout=100@*/
+H_MULTI(fmg, GT)
+/*@GROUP name=fmi_ctor props=C09,C02 kind=K unwind=20 timeout=100@*/
+H_MULTI(fmi, LT)
